@@ -44,7 +44,7 @@ def check(ctx):
     fl = [F, ctx.dep('bc_components'), ctx.dep('dcbor')]
     enc, enc_terms, problems = codec.encoder_table(ctx, fl)
     if enc_terms and 'Elided' in enc_terms:
-        val, site = enc_terms['Elided']
+        val, site = enc_terms['Elided'][:2]
         u = m_call(val, name='untagged_cbor')
         sv = strip_sites(u[0]) if u else None
         if sv is not None and sv[0] == 'vfield' and sv[2] == 'Elided' and sv[3] == '0':
